@@ -1537,7 +1537,16 @@ macro_rules! public_decode_function{
                     // Wasn't read from `src`!, leave out_read to 0
                 }
                 DecoderResult::OutputFull => {
-                    panic!("Output buffer must have been too small.");
+                    // There wasn't room for the output of the withheld
+                    // byte. Keep withholding it so that the caller can
+                    // retry with more output space. Nothing was read
+                    // from `src`, so leave out_read to 0.
+                    self.life_cycle = match first_byte {
+                        0xEFu8 => DecoderLifeCycle::SeenUtf8First,
+                        0xFEu8 => DecoderLifeCycle::SeenUtf16BeFirst,
+                        0xFFu8 => DecoderLifeCycle::SeenUtf16LeFirst,
+                        _ => DecoderLifeCycle::ConvertingWithPendingBB,
+                    };
                 }
             }
             return (first_result, out_read, first_written);
@@ -1581,7 +1590,16 @@ macro_rules! public_decode_function{
                     first_read = 0usize; // Wasn't read from `src`!
                 }
                 DecoderResult::OutputFull => {
-                    panic!("Output buffer must have been too small.");
+                    // There wasn't room for the output of both withheld
+                    // bytes. Keep withholding what the underlying decoder
+                    // did not consume so that the caller can retry with
+                    // more output space.
+                    self.life_cycle = if first_read == 0usize {
+                        DecoderLifeCycle::SeenUtf8Second
+                    } else {
+                        DecoderLifeCycle::ConvertingWithPendingBB
+                    };
+                    first_read = 0usize; // Wasn't read from `src`!
                 }
             }
             return (first_result, first_read, first_written);
